@@ -9,8 +9,69 @@ const PAGE_SIZE: u64 = 1024;
 const CRC_SIZE: u64 = 4;
 const PAGE_PAYLOAD_SIZE: usize = (PAGE_SIZE - CRC_SIZE) as usize;
 
+/// Wraps the underlying device and remembers if it ever reported an error.
+/// After a failed operation the position and content of the device are unknown.
+/// Any later operation must fail as well instead of writing to the wrong place.
+struct FailFast<T: Write + Read + Seek> {
+    inner: T,
+    failed: bool,
+}
+
+impl<T: Write + Read + Seek> FailFast<T> {
+    fn check(&self) -> std::io::Result<()> {
+        if self.failed {
+            let msg = "Writer is unusable after an earlier I/O error";
+            return Err(std::io::Error::new(std::io::ErrorKind::Other, msg));
+        }
+        Ok(())
+    }
+
+    fn track<R>(&mut self, result: std::io::Result<R>) -> std::io::Result<R> {
+        if let Err(err) = &result {
+            if err.kind() != std::io::ErrorKind::Interrupted {
+                self.failed = true;
+            }
+        }
+        result
+    }
+}
+
+impl<T: Write + Read + Seek> Read for FailFast<T> {
+    fn read(&mut self, buf: &mut [u8]) -> std::io::Result<usize> {
+        self.check()?;
+        let result = self.inner.read(buf);
+        self.track(result)
+    }
+}
+
+impl<T: Write + Read + Seek> Seek for FailFast<T> {
+    fn seek(&mut self, pos: SeekFrom) -> std::io::Result<u64> {
+        self.check()?;
+        let result = self.inner.seek(pos);
+        self.track(result)
+    }
+}
+
+impl<T: Write + Read + Seek> Write for FailFast<T> {
+    fn write(&mut self, buf: &[u8]) -> std::io::Result<usize> {
+        self.check()?;
+        let result = self.inner.write(buf);
+        if matches!(result, Ok(0)) && !buf.is_empty() {
+            // The device accepts no more data, everything after this point would be lost
+            self.failed = true;
+        }
+        self.track(result)
+    }
+
+    fn flush(&mut self) -> std::io::Result<()> {
+        self.check()?;
+        let result = self.inner.flush();
+        self.track(result)
+    }
+}
+
 pub struct PagedWriter<T: Write + Read + Seek> {
-    writer: T,
+    writer: FailFast<T>,
     offset: usize,
     page_buffer: [u8; PAGE_SIZE as usize],
 
@@ -27,6 +88,10 @@ impl<T: Write + Read + Seek> PagedWriter<T> {
         if end != 0 {
             Error::invalid("Supplied writer is not empty")?
         }
+        let writer = FailFast {
+            inner: writer,
+            failed: false,
+        };
         Ok(Self {
             writer,
             offset: 0,
